@@ -204,6 +204,80 @@ def scripted_transfer(rng, derived=False):
         ops.append(gen_op(rng, derived))
     return {'ops': ops}
 
+def scripted_unit_total(rng, derived=False):
+    """special total flows (exactly 1.0 = mole-fraction basis, also 2 and 1/2): in-place edits that keep the total constant
+    (material moved between phases, or between chemicals inside one row), directly or through a phase view, with reads of
+    one kind (all phase-dependent or all phase-independent) before and after and nothing of the other kind in between"""
+    multi = rng.random() < 0.7
+    phases = rng.choice(PHASE_SETS) if multi else rng.choice(PHS)
+    rows = [[rng.choice(QUARTERS) for _ in range(3)] for _ in phases]
+    pf = rng.randrange(len(phases)); j = rng.randrange(3)
+    if rows[pf][j] == 0: rows[pf][j] = F(1)
+    tot = sum(sum(r) for r in rows)
+    target = F(1)
+    while target < tot: target *= 2
+    rows[rng.randrange(len(phases))][rng.randrange(3)] += target - tot
+    unit = rng.choice([F(1), F(1), F(1), F(2), F(1, 2)])
+    rows = [[v * unit / target for v in r] for r in rows]
+    ops = [['new', [[float(v) for v in r] for r in rows], phases, rng.choice(TS), rng.choice(PS), rng.choice([0, 2])]]
+    kind = rng.choice([PHASE_PROPS, PHASE_PROPS, ['sigma', 'epsilon', 'Hvap']])
+    via_view = multi and rng.random() < 0.5
+    if via_view:
+        ops += [['view', 0, p] for p in phases]                    # objects 1 .. len(phases)
+    for _ in range(rng.randint(1, 3)):
+        ops += [['read', 0, n] for n in rng.sample(kind, rng.randint(1, 2))]
+        x = rows[pf][j] * rng.choice([F(1), F(1, 2), F(1, 4)])
+        if multi and rng.random() < 0.6:
+            pt, k = rng.choice([q for q in range(len(phases)) if q != pf]), j       # between phases
+        else:
+            pt, k = pf, rng.choice([q for q in range(3) if q != j])                 # between chemicals of one row
+        rows[pf][j] -= x; rows[pt][k] += x
+        if via_view:
+            ops += [['setflow', 1 + pf, 'g', j, float(rows[pf][j])], ['setflow', 1 + pt, 'g', k, float(rows[pt][k])]]
+        else:
+            ops += [['setflow', 0, phases[pf], j, float(rows[pf][j])], ['setflow', 0, phases[pt], k, float(rows[pt][k])]]
+        ops += [['read', 0, n] for n in rng.sample(kind, rng.randint(1, 2))]
+        pf, j = pt, k
+        if rows[pf][j] == 0: break
+    for _ in range(rng.randint(0, 5)):
+        ops.append(gen_op(rng, derived))
+    return {'ops': ops}
+
+def scripted_mix_expand(rng, derived=False):
+    """a MultiStream whose volumetric view has been read receives, through mix_from, inlets that bring in a phase it does not
+    have yet (the indexer's phases are expanded in place, without the phases setter); vol and scalar properties are read
+    on it and on its phase views before and after, and again after further edits"""
+    phases = rng.choice(['gl', 'ls', 'gs', 'gl'])
+    rows = [[float(rng.choice([0, 1, 2, 3, F(1, 2)])) for _ in range(3)] for _ in phases]
+    rows[0][rng.randrange(3)] = float(rng.choice([1, 2]))
+    T, P = rng.choice(TS[:3]), rng.choice(PS)
+    ops = [['new', rows, phases, T, P, 0]]
+    srcs = []
+    for _ in range(rng.randint(1, 3)):
+        if rng.random() < 0.6:
+            ph = rng.choice(PHS)
+            ops.append(['new', [[float(rng.choice([0, 1, 2, 4, F(1, 4)])) for _ in range(3)]], ph, rng.choice(TS[:3]), rng.choice(PS), 0])
+        else:
+            ph = rng.choice(PHASE_SETS)
+            ops.append(['new', [[float(rng.choice([0, 1, 2, 4, F(1, 4)])) for _ in range(3)] for _ in ph], ph, rng.choice(TS[:3]), rng.choice(PS), 0])
+        srcs.append(len(srcs) + 1)
+    n = 1 + len(srcs)
+    if rng.random() < 0.5:
+        ops.append(['view', 0, rng.choice(phases)]); n += 1
+    ops += [['rvol', 0]] + [['read', 0, rng.choice(PHASE_PROPS)] for _ in range(rng.randint(0, 2))]
+    if rng.random() < 0.3:
+        srcs.append(0)
+    rng.shuffle(srcs)
+    ops.append(['mix', 0, srcs, rng.random() < 0.4])
+    ops += [['rvol', 0], ['read', 0, rng.choice(PHASE_PROPS + (['z_vol', 'vol', 'F_vol'] if derived else []))]]
+    for p in rng.sample(PHS, 2):
+        ops.append(['view', 0, p])
+    ops.append(['setflow', 0, rng.choice(PHS), rng.randrange(3), float(rng.choice([1, 3, 8]))])
+    ops += [['rvol', 0]] + [['rvol', t] for t in range(n, n + 2)] + [['read', rng.randrange(n + 2), rng.choice(PHASE_PROPS)]]
+    for _ in range(rng.randint(0, 5)):
+        ops.append(gen_op(rng, derived))
+    return {'ops': ops}
+
 def scripted_package_switch(rng, derived=False):
     """property-package change between packages that share the Chemicals object and differ only in their property
     functions, on a Stream, a MultiStream and its phase views, with the same properties read before and after"""
@@ -358,7 +432,7 @@ def scripted_roundtrip(rng, derived=False):
 
 def gen_scripted(rng, derived=False):
     return rng.choice([scripted_transfer, scripted_package_switch, scripted_link, scripted_pair, scripted_nested, scripted_raise,
-                       scripted_roundtrip])(rng, derived)
+                       scripted_roundtrip, scripted_unit_total, scripted_mix_expand])(rng, derived)
 
 DEFECT_5STEP = {'ops': [['new', [[1., 3., 0.]], 'l', 300., 101325., 0], ['proxy', 0], ['read', 0, 'h'], ['setT', 0, 320.],
                         ['read', 1, 'h'], ['setT', 0, 300.], ['read', 0, 'h']]}
@@ -467,10 +541,17 @@ def resolve(objs, op):
         energy = op[3]
         def act():
             s.mix_from([objs[x] for x in js], energy_balance=energy)
-        if is_multi(s) or any(is_multi(objs[x]) or not same_chem(s, objs[x]) for x in js): return ['nop'], act
+        def consistent(x):
+            return (is_multi(x) == isinstance(x, tmo.MultiStream)
+                    and (not is_multi(x) or len(x._imol._phases) == len(x._imol.data.rows)))
+        if not consistent(s) or any(not consistent(objs[x]) or not same_chem(s, objs[x]) for x in js): return ['nop'], act
         live = [x for x in js if not objs[x].isempty()]
         if len(live) == 0: return ['empty', i], act
-        if len(live) == 1: return (['copy_like', i, live[0]] if energy else ['mix1', i, live[0]]), act
+        if energy and any(objs[x] is s for x in live) and is_multi(s): return ['nop'], act     # mixes a copy of its own indexer
+        if len(live) == 1:
+            if not energy: return ['mix1', i, live[0]], act
+            if is_multi(s) or is_multi(objs[live[0]]): return ['nop'], act                     # MultiStream.copy_like / copy_like from a MultiStream
+            return ['copy_like', i, live[0]], act
         return ['mix', i, live, energy, None], act       # T filled in after the call
     if k == 'view': return [k, i, op[2]], lambda: s[op[2]]
     if k == 'setphases':
@@ -716,11 +797,15 @@ def oracle(case):
             if is_multi(a) and is_multi(b) and op[3] and op[5] and a._imol._phases != b._imol._phases:
                 mislinked.add(id(a._imol))
             if is_multi(a) and is_multi(b) and (op[3] or op[5]) and a is not b:
-                detached.update(id(v) for v in getattr(a, '_streams', {}).values())
+                for o in objs:          # the receiver and every proxy sharing its indexer
+                    if o._imol is a._imol or o is a:
+                        detached.update(id(v) for v in getattr(o, '_streams', {}).values())
         if k == 'unlink' and objs:
             a = objs[op[1] % len(objs)]
             if is_multi(a):
-                detached.update(id(v) for v in getattr(a, '_streams', {}).values())
+                for o in objs:
+                    if o._imol is a._imol or o is a:
+                        detached.update(id(v) for v in getattr(o, '_streams', {}).values())
         try:
             r = act()
         except Exception:
